@@ -115,10 +115,36 @@ func (t *tx) Rollback() error {
 	return nil
 }
 
+// handleMode: how the gorm handle given to Transact was obtained (families run one case at a time)
+var handleMode = "default"
+
+var handleModes = []string{"prepare-stmt-config", "prepare-stmt-session", "new-session", "with-context", "default-transaction-on", "debug", "dry-run-off-session"}
+
 func open(e *env) (*gorm.DB, *sql.DB, error) {
 	sdb := sql.OpenDB(connector{e})
 	sdb.SetMaxOpenConns(1)
-	g, err := gorm.Open(mysql.New(mysql.Config{Conn: sdb, SkipInitializeWithVersion: true}), &gorm.Config{Logger: logger.Discard, DisableAutomaticPing: true, SkipDefaultTransaction: true})
+	cfg := &gorm.Config{Logger: logger.Discard, DisableAutomaticPing: true, SkipDefaultTransaction: true}
+	switch handleMode {
+	case "prepare-stmt-config":
+		cfg.PrepareStmt = true
+	case "default-transaction-on":
+		cfg.SkipDefaultTransaction = false
+	}
+	g, err := gorm.Open(mysql.New(mysql.Config{Conn: sdb, SkipInitializeWithVersion: true}), cfg)
+	if err == nil {
+		switch handleMode {
+		case "prepare-stmt-session":
+			g = g.Session(&gorm.Session{PrepareStmt: true})
+		case "new-session":
+			g = g.Session(&gorm.Session{NewDB: true})
+		case "with-context":
+			g = g.WithContext(context.Background())
+		case "debug":
+			g = g.Session(&gorm.Session{Logger: logger.Discard})
+		case "dry-run-off-session":
+			g = g.Session(&gorm.Session{DryRun: false, SkipHooks: true})
+		}
+	}
 	return g, sdb, err
 }
 
@@ -286,7 +312,7 @@ func check(c *seq.Ctx, kinds []stepKind, failBegin, failCommit, failRollback boo
 		res = gormx.Transact(g, steps...)
 		return ""
 	}()
-	desc := fmt.Sprintf("steps=%v begin-fails=%v commit-fails=%v rollback-fails=%v wrap=%s log-level=%v", names, failBegin, failCommit, failRollback, wrap, level)
+	desc := fmt.Sprintf("steps=%v begin-fails=%v commit-fails=%v rollback-fails=%v wrap=%s log-level=%v handle=%s", names, failBegin, failCommit, failRollback, wrap, level, handleMode)
 	firstFail := -1
 	for i, k := range kinds {
 		if k.fails() {
@@ -508,7 +534,7 @@ func checkWindows(c *seq.Ctx, n, width int, failAt int) {
 
 func main() {
 	r := ev.Start("C18")
-	r.Rule("every step list of length 0..n over {ok, ok+Exec, returns error, Exec fails, panics(string), panics(error), panics(nil), special error values, a nested Transact on the step's own handle with its result ignored/returned, a step that records an error on the handle and returns nil} x begin ok/fails x commit ok/fails x rollback ok/fails x {plain, Combine(all), Combine(tail), nested Combine}, run through gormx.Transact on gorm's MySQL dialector over an in-process database/sql driver that records Begin/Exec/Commit/Rollback; plus 1..6 steps kept in one slice and passed as consecutive windows of every width (each step once, in its own window's transaction); plus Transact on a handle the caller already began a transaction on (no step, error, caller's transaction untouched and still finishable); lists of length <= 2 also under global log levels info/error/dpanic/fatal; distinct = (length, outcome class, fault pattern, wrapping)")
+	r.Rule("every step list of length 0..n over {ok, ok+Exec, returns error, Exec fails, panics(string), panics(error), panics(nil), special error values, a nested Transact on the step's own handle with its result ignored/returned, a step that records an error on the handle and returns nil} x begin ok/fails x commit ok/fails x rollback ok/fails x {plain, Combine(all), Combine(tail), nested Combine}, run through gormx.Transact on gorm's MySQL dialector over an in-process database/sql driver that records Begin/Exec/Commit/Rollback; plus 1..6 steps kept in one slice and passed as consecutive windows of every width (each step once, in its own window's transaction); plus Transact on a handle the caller already began a transaction on (no step, error, caller's transaction untouched and still finishable); lists of length <= 2 also under global log levels info/error/dpanic/fatal and on handles obtained in 7 further ways (PrepareStmt by config and by session, new session, WithContext, default transactions on, logger session, hook-skipping session); distinct = (length, outcome class, fault pattern, wrapping)")
 	r.Assume("a failing driver callback has no effect", "panic(nil) follows the toolchain's semantics for the harness module (go 1.21: *runtime.PanicNilError)")
 	n := r.Pick(3, 4)
 	seq.RunFamily(r, seq.Family{Name: "transact", Run: func(c *seq.Ctx) {
@@ -531,6 +557,13 @@ func main() {
 									// the outcome must not depend on how much is logged
 									for _, lv := range []zapcore.Level{zapcore.InfoLevel, zapcore.ErrorLevel, zapcore.DPanicLevel, zapcore.FatalLevel} {
 										check(c, kinds, fb, fc, fr, w, lv)
+									}
+									// ... nor on how the handle was configured (prepared-statement mode wraps the
+									// connection pool and the transaction in gorm's own types)
+									for _, hm := range handleModes {
+										handleMode = hm
+										check(c, kinds, fb, fc, fr, w, zapcore.DebugLevel)
+										handleMode = "default"
 									}
 								}
 							}
